@@ -157,6 +157,8 @@ class Interp:
         self.path = []          # [(cond ast, polarity)]
         self.loops = []         # [(var name, Dim, ast.For node)]
         self.exited = False
+        self.kinds = ["fn"]     # kind of the enclosing blocks: fn / loop / if / other (alternatives of a helper's returns are followed separately
+        #                         only where leaving the block early is the end of the story: function and loop bodies)
         self.site = None        # statement of the outermost function that is being executed (for events raised inside helpers)
 
     # ------------------------------------------------------------------ helpers
@@ -286,6 +288,8 @@ class Interp:
             if a is None or b is None:
                 return None
             return self.broadcast([a, b], lambda x, y: ast.Compare(left=x, ops=[e.ops[0]], comparators=[y]), True)
+        if isinstance(e, ast.IfExp) and self.truth(e.test) is not None:
+            return self._ev(e.body if self.truth(e.test) else e.orelse)        # decided by the seeded constants / flags
         if isinstance(e, ast.IfExp):
             t, a, b = self.as_lam(self.need(e.test)), self.as_lam(self.need(e.body)), self.as_lam(self.need(e.orelse))
             if None in (t, a, b):
@@ -961,6 +965,7 @@ class Interp:
         rets = self.returns[n_ret:]
         del self.returns[n_ret:]
         vals = [r["value"] for r in rets]
+        self.last_alts = [(r["path"][len(self.premises()):] if len(r["path"]) >= len(self.premises()) else [], r["value"]) for r in rets]
         if not vals:
             return scal(C(None))
         if len(vals) == 1:
@@ -972,6 +977,52 @@ class Interp:
         # an early `return` of an empty selection next to the general one: keep the general (last) one
         return vals[-1]
 
+    def call_alternatives(self, call):
+        """[(extra premises, value)] when `call` is a closure / package helper whose returns differ, else None"""
+        f = call.func
+        clo = None
+        if isinstance(f, ast.Name) and isinstance(self.env.get(f.id), Closure):
+            clo = self.env[f.id]
+        else:
+            try:
+                r = self.prog.resolve_call(self.fi, call)
+            except Exception:
+                r = None
+            from .program import FuncInfo
+            if isinstance(r, FuncInfo) and r.node is not self.fi.node and self.depth < 4 and r.node.name not in SCALAR_FUNCS:
+                clo = Closure(r.node, r)
+        if clo is None:
+            return None
+        n_ap, n_st, n_un = len(self.appends), len(self.stores), len(self.unknown)
+        self.last_alts = None
+        try:
+            self.inline(clo, call)
+        except Unknown:
+            return None
+        finally:
+            # this was a trial run: what it recorded is recorded again when the call is executed for real
+            del self.appends[n_ap:], self.stores[n_st:], self.unknown[n_un:]
+        alts = self.last_alts
+        if not alts or len(alts) < 2 or any(v is None for _p, v in alts):
+            return None
+        if all(repr(v) == repr(alts[0][1]) for _p, v in alts[1:]):
+            return None
+        return alts
+
+    def bind_value(self, t, v):
+        if isinstance(t, ast.Name):
+            self.env[t.id] = v
+        elif isinstance(t, (ast.Tuple, ast.List)) and isinstance(v, Tup) and len(v.items) == len(t.elts):
+            for tt, vv in zip(t.elts, v.items):
+                if isinstance(tt, ast.Name):
+                    if vv is None:
+                        self.env.pop(tt.id, None)
+                    else:
+                        self.env[tt.id] = vv
+        else:
+            for n_ in self._targets(t):
+                self.env.pop(n_, None)
+
     # ------------------------------------------------------------------ statements
     def truth(self, test):
         if isinstance(test, ast.Compare) and len(test.ops) == 1 and isinstance(test.left, ast.Name) and test.left.id in self.consts and isinstance(test.comparators[0], ast.Constant):
@@ -981,6 +1032,17 @@ class Interp:
                 return a == b
             if isinstance(op, (ast.NotEq, ast.IsNot)):
                 return a != b
+        if isinstance(test, ast.Compare) and len(test.ops) == 1 and isinstance(test.ops[0], (ast.Is, ast.IsNot)) and isinstance(test.left, ast.Name) \
+                and isinstance(test.comparators[0], ast.Constant) and test.comparators[0].value is None and test.left.id in self.env:
+            # `x is None` for a value this model knows: the None a helper returned on one of its paths, or a tuple it returned on another
+            v = self.env[test.left.id]
+            isnone = None
+            if isinstance(v, Tup):
+                isnone = False
+            elif isinstance(v, Lam) and v.scalar and isinstance(v.body, ast.Constant):
+                isnone = v.body.value is None
+            if isnone is not None:
+                return isnone == isinstance(test.ops[0], ast.Is)
         t = astq.const_test(test, self.consts)
         return t if isinstance(t, bool) else None
 
@@ -1011,6 +1073,22 @@ class Interp:
             self.env[s.name] = Closure(s)
             return
         if isinstance(s, ast.Assign) and len(s.targets) == 1:
+            if isinstance(s.value, ast.Call) and self.kinds[-1] in ("fn", "loop") and rest:
+                alts = self.call_alternatives(s.value)
+                if alts is not None and len(alts) > 1:
+                    # the helper returns different things on different paths (None / a tuple): the rest of this block is followed once
+                    # per alternative, under the conditions of that return
+                    env0 = dict(self.env)
+                    plen = len(self.path)
+                    for extra, val in alts:
+                        self.env = dict(env0)
+                        self.path.extend(extra)
+                        self.bind_value(s.targets[0], val)
+                        self.exited = False
+                        self.block(rest)
+                        del self.path[plen:]
+                    self.exited = True          # the rest of the block has been executed
+                    return
             self.assign(s.targets[0], s.value, s)
             return
         if isinstance(s, ast.AnnAssign) and s.value is not None:
@@ -1044,6 +1122,7 @@ class Interp:
                 return
             cond = self.cond_ast(s.test)
             env0 = dict(self.env)
+            self.kinds.append("if")
             self.path.append((cond, True))
             self.block(s.body)
             ex1, self.exited = self.exited, False
@@ -1055,6 +1134,7 @@ class Interp:
             ex2, self.exited = self.exited, False
             env2 = self.env
             self.path.pop()
+            self.kinds.pop()
             e1 = self.ends(s.body) or ex1
             e2 = self.ends(s.orelse) or ex2
             if e1 and not e2:
@@ -1086,7 +1166,11 @@ class Interp:
                         self.env[n_] = scal(N(n_))      # element of an iterable that is not modelled: an opaque value
                     d = Dim(None)
             self.loops.append((d.var, d, s))
-            self.block(s.body)
+            self.kinds.append("loop")
+            try:
+                self.block(s.body)
+            finally:
+                self.kinds.pop()
             self.exited = False
             self.loops.pop()
             del self.path[plen:]
@@ -1098,10 +1182,18 @@ class Interp:
                 self.block(s.orelse)
             return
         if isinstance(s, (ast.With,)):
-            self.block(s.body)
+            self.kinds.append("other")
+            try:
+                self.block(s.body)
+            finally:
+                self.kinds.pop()
             return
         if isinstance(s, ast.Try):
-            self.block(s.body)
+            self.kinds.append("other")
+            try:
+                self.block(s.body)
+            finally:
+                self.kinds.pop()
             return
         if isinstance(s, ast.Return):
             v = self.ev(s.value) if s.value is not None else scal(C(None))
@@ -1120,7 +1212,8 @@ class Interp:
             if isinstance(value, ast.Lambda):
                 self.env[t.id] = Closure(value)
                 return
-            if isinstance(value, (ast.Compare, ast.BoolOp, ast.UnaryOp, ast.Name)):
+            if isinstance(value, (ast.Compare, ast.BoolOp, ast.UnaryOp, ast.Name)) or \
+                    (isinstance(value, ast.Call) and isinstance(value.func, ast.Name) and value.func.id == "isinstance"):
                 tv = self.truth(value)
                 if isinstance(tv, bool):
                     self.consts[t.id] = tv      # a flag derived from the seeded constants
